@@ -112,7 +112,7 @@ func genHistoryCase(prop, tier string, r *rand.Rand) *Case {
 	}
 	edits := []string{"node.add", "node.add", "node.delete", "node.delete", "node.setnodes", "fam.setnodes", "ind.setnodes", "doc.addnode", "doc.addnode.dup", "doc.addindividual", "doc.addindividual.dup",
 		"doc.addfamily", "doc.addfamilyhw", "doc.delete", "doc.setnodes", "fam.sethusband", "fam.setwife", "fam.sethusband.nil",
-		"fam.setwife.nil", "fam.sethusbandptr", "fam.setwifeptr", "fam.addchild", "ind.addname", "ind.addbirth", "ind.adddeath", "ind.setsex"}
+		"fam.setwife.nil", "fam.sethusbandptr", "fam.setwifeptr", "fam.addchild", "ind.addname", "ind.addbirth", "ind.adddeath", "ind.setsex", "ind.dellink", "ind.dellink", "ind.addlink"}
 	reads := []string{"read.nodeswithtag", "read.families", "read.individual", "read.family", "read.pointer", "read.all"}
 	ros := []string{"ro.warnings", "ro.string", "ro.compare", "ro.surrounding", "ro.comparenodes", "ro.deepcopy", "ro.shallowcopy", "ro.filter",
 		"ro.publish", "ro.query", "ro.diffpage", "ro.merge", "ro.mergenodes"}
@@ -636,6 +636,31 @@ func applyEdit(ss *session, op HistOp) (applied bool) {
 		case "ind.setsex":
 			i.SetSex(pick2s(op.B, "M", "F", "U"))
 		}
+	case "ind.dellink", "ind.addlink":
+		// the FAMS/FAMC lines of an individual are edited directly (they say
+		// again what the families say; a view that follows them must notice)
+		i := nthIndividual(doc, op.A)
+		if i == nil {
+			return false
+		}
+		if op.Op == "ind.addlink" {
+			f := nthFamily(doc, op.B)
+			if f == nil || f.Pointer() == "" {
+				return false
+			}
+			i.AddNode(gedcom.NewNode(gedcom.TagFromString(pick2s(op.C, "FAMS", "FAMC")), "@"+f.Pointer()+"@", ""))
+			break
+		}
+		var links []gedcom.Node
+		for _, ch := range i.Nodes() {
+			if t := ch.Tag().Tag(); t == "FAMS" || t == "FAMC" {
+				links = append(links, ch)
+			}
+		}
+		if len(links) == 0 {
+			return false
+		}
+		i.DeleteNode(links[op.B%len(links)])
 	// plain reads: warm one cache at the right moment
 	case "read.nodeswithtag":
 		n := nthNode(nodes, op.A)
